@@ -492,6 +492,13 @@ func run(c hx.Config) error {
 	if err != nil {
 		return err
 	}
+	if len(c.Args) >= 1 && c.Args[0] == "reach-only" {
+		// development aid: only the leaf-coverage search (reach.go)
+		if err := reachCells(o, c.OutDir); err != nil {
+			return err
+		}
+		return o.Close(map[string]any{})
+	}
 	lvs, wrs := leaves(), append(wrappers(), deepWrappers()...)
 	one := wrs // the one-level wrappers (top + 13 positions)
 	kindsPath := ""
@@ -666,6 +673,11 @@ func run(c hx.Config) error {
 		}
 	}
 	if err := os.WriteFile(c.OutDir+"/reach.txt", []byte(strings.Join(reach, "\n")+"\n"), 0o644); err != nil {
+		return err
+	}
+
+	// leaf coverage of the static catalogue: constructor family x variant x input (reach.go)
+	if err := reachCells(o, c.OutDir); err != nil {
 		return err
 	}
 
